@@ -109,6 +109,19 @@ int fam_mul(const vh_args_t *a) {
       if (route == R_SQR || route == R_ADDSQR) { l = n = m; }
       if (route == R_VA && vh_randint(0, 1)) m = 1;
       if (route == R_DJB && (m > 200 || l > 200)) continue;
+      if (vh_randint(0, 5) == 0) {
+        /* thin / fat shapes that switch between the cubic and the table paths: few rows, very wide rows
+           (more than 8 words so that the unrolled word loops run), narrow results */
+        static const int wide[] = {576, 640, 705, 1000, 1088, 1500, 1601};
+        switch (vh_randint(0, 3)) {
+        case 0: m = vh_randint(1, 15); n = wide[vh_randint(0, 6)]; l = vh_pick((int[]){1, 17, 64, 65, 130}, 5); break;
+        case 1: m = vh_randint(1, 15); l = wide[vh_randint(0, 6)]; n = vh_pick((int[]){1, 53, 54, 64, 130}, 5); break;
+        case 2: m = wide[vh_randint(0, 6)]; l = vh_pick((int[]){3, 64, 100}, 3); n = vh_randint(1, 53); break;
+        default: m = 256 * vh_randint(1, 3); l = vh_pick((int[]){17, 64, 70}, 3); n = vh_randint(1, 53); break; /* exact multiples of the cubic block size */
+        }
+        if (route == R_SQR || route == R_ADDSQR) { m = vh_pick((int[]){8, 15, 100}, 3); l = n = m; }
+        if (route == R_DJB && (m > 200 || l > 200)) continue;
+      }
       if ((long)m * l * n <= budget) break;
     }
     static const int kinds[] = {0, 0, 0, 0, 1, 1, 2, 3, 4, 5, 6, 7};
